@@ -12,7 +12,7 @@ from vf.core import Ctx
 def run_scenarios(ctx: Ctx, scenarios: list) -> None:
     traces = trace_run.record_all('props.respfam', 'Recorder', scenarios, 16 if ctx.thorough else 8)
     ctx.log('recorded %d traces, %d events' % (len(traces), sum(len(t['events']) for t in traces)))
-    verdicts, states, trans = trace_run.validate('Trace_Responder', traces, {'own': 'C17'}, batch=250, par=4)
+    verdicts, states, trans = trace_run.validate('Trace_Responder', traces, {'own': 'C17', 'slack': 5}, batch=250, par=4)
     res = trace_run.triage(ctx, 'C17', scenarios, traces, verdicts, disc)
     inflight = {'queued_answers': 0, 'probing': 0, 'browser': 0, 'lookup': 0, 'tc_hold': 0, 'post_close_traffic': 0}
     nontrivial = set()
